@@ -57,20 +57,21 @@ def clamp (p : Props) (v1 : Val) : Val :=
   let v2 := Val.pyMin (p.maxV.getD v1) v1
   Val.pyMax (p.minV.getD v2) v2
 
+/-- the numeric branch of `to_valid_value` (`prop_format in HAP_FORMAT_NUMERICS`) -/
+def toValidNum (E : Ext) (p : Props) (v : Val) : Except Exn Val :=
+  if !v.isNumeric then .error .valueError else
+  match stepped E p v with
+  | .error e => .error e
+  | .ok v1 =>
+    let v3 := clamp p v1
+    if p.fmt.isInteger then (toInt v3).map Val.int else .ok v3
+
 /-- `Characteristic.to_valid_value` -/
 def toValid (E : Ext) (p : Props) (v : Val) : Except Exn Val :=
   match p.fmt with
   | .string => .ok (.str ((pyStr E v).take (p.maxLen.getD defaultMaxLen)))
   | .bool => .ok (.bool v.truthy)
-  | f =>
-    if f.isNumeric then
-      if !v.isNumeric then .error .valueError else
-      match stepped E p v with
-      | .error e => .error e
-      | .ok v1 =>
-        let v3 := clamp p v1
-        if f.isInteger then (toInt v3).map Val.int else .ok v3
-    else .ok v
+  | f => if f.isNumeric then toValidNum E p v else .ok v
 
 /-- `Characteristic.valid_value_or_raise` -/
 def validOrRaise (L : Variant) (cfg : Cfg) (p : Props) (v : Val) : Except Exn Unit :=
@@ -115,9 +116,14 @@ structure Res where
   out : List Event
   deriving Repr
 
+/-- `_validate_properties`: `maxLen` present and `> ABSOLUTE_MAX_LENGTH` -/
+def tooLong : Option Nat → Bool
+  | some n => decide (n > absMaxLen)
+  | none => false
+
 /-- `Characteristic.__init__` (value part): `_validate_properties`, then the default value. -/
 def init (E : Ext) (cfg : Cfg) (p : Props) : Except Exn St :=
-  if (match p.maxLen with | some n => decide (n > absMaxLen) | none => false) then .error .valueError
+  if tooLong p.maxLen then .error .valueError
   else (defaultValue E cfg p).map fun d => { props := p, value := d }
 
 /-- `Characteristic.set_value(value, should_notify)` with a broker attached. -/
@@ -190,8 +196,7 @@ def overrideHandler (E : Ext) (L : Variant) (cfg : Cfg) (p : Props) (cur : Val) 
 /-- `Characteristic.override_properties(properties, valid_values)` -/
 def override (E : Ext) (L : Variant) (cfg : Cfg) (st : St) (u : Upd) (vvArg : List Int) : Res :=
   if u.isEmpty && vvArg.isEmpty then ⟨st, some .valueError, []⟩
-  else if (match u.maxLen with | some n => decide (n > absMaxLen) | none => false) then
-    ⟨st, some .valueError, []⟩
+  else if tooLong u.maxLen then ⟨st, some .valueError, []⟩
   else
     let p := overrideProps st.props u vvArg
     if cfg.alwaysNull then ⟨⟨p, .null⟩, none, []⟩
@@ -243,16 +248,23 @@ def inBounds (p : Props) (v : Val) : Bool :=
 def inValid (cfg : Cfg) (p : Props) (v : Val) : Bool :=
   p.vv.isEmpty || cfg.allowInvalid || v.memInts p.vv
 
-/-- `v` satisfies the constraints declared by `p`, according to the format. -/
-def confFmt (cfg : Cfg) (p : Props) (v : Val) : Bool :=
+/-- numeric formats: an `int` inside the bounds for integer formats, any number inside the
+    bounds for `float` -/
+def confNum (p : Props) (v : Val) : Bool :=
+  if p.fmt.isInteger then (match v with | .int _ => inBounds p v | _ => false)
+  else v.isNumeric && inBounds p v
+
+/-- format, type and range part of conformance: a string no longer than `maxLen` (64 when not
+    declared), a boolean, an `int` inside the bounds for integer formats, a number inside the
+    bounds for `float`; nothing is demanded of tlv8 / data / array / dictionary values -/
+def confBase (p : Props) (v : Val) : Bool :=
   match p.fmt with
   | .string => (match v with | .str s => decide (s.length ≤ p.maxLen.getD 64) | _ => false)
   | .bool => (match v with | .bool _ => true | _ => false)
-  | f =>
-    if f.isInteger then
-      (match v with | .int _ => inBounds p v && inValid cfg p v | _ => false)
-    else if f.isNumeric then v.isNumeric && inBounds p v && inValid cfg p v
-    else true
+  | f => if f.isNumeric then confNum p v else true
+
+/-- `v` satisfies the constraints declared by `p`, according to the format. -/
+def confFmt (cfg : Cfg) (p : Props) (v : Val) : Bool := confBase p v && inValid cfg p v
 
 /-- conformance; `null` is the specified value of the always-null type -/
 def conf (cfg : Cfg) (p : Props) (v : Val) : Bool :=
@@ -284,5 +296,24 @@ def consistent (p : Props) : Bool :=
     (!p.fmt.isInteger || (optAll isIntegralVal p.minV && optAll isIntegralVal p.maxV)) &&
     p.vv.all (fun i => inBounds p (.int i))
   else p.vv.isEmpty)
+
+/-- every property set along a history is consistent (the initial one and the one after each
+    override) -/
+def AllConsistent (E : Ext) (L : Variant) (cfg : Cfg) : St → List Op → Prop
+  | st, [] => consistent st.props = true
+  | st, op :: ops => consistent st.props = true ∧ AllConsistent E L cfg (step E L cfg st op).st ops
+
+instance AllConsistent.dec (E : Ext) (L : Variant) (cfg : Cfg) :
+    ∀ (st : St) (ops : List Op), Decidable (AllConsistent E L cfg st ops)
+  | st, [] => inferInstanceAs (Decidable (consistent st.props = true))
+  | st, op :: ops =>
+    have := AllConsistent.dec E L cfg (step E L cfg st op).st ops
+    inferInstanceAs (Decidable (consistent st.props = true ∧ _))
+
+/-- no override in the history (the property set stays the declared one) -/
+def noOverride : List Op → Bool
+  | [] => true
+  | .override _ _ :: _ => false
+  | _ :: ops => noOverride ops
 
 end Hap.Char
